@@ -287,12 +287,15 @@ func (w *world) groupDesc() map[string]any {
 }
 
 func (w *world) dial(suffix string) *vclient.Client {
-	c, err := vclient.Dial(w.e.srv, w.tag+"-"+suffix)
-	if err != nil {
-		w.inconclusive("dial failed: " + err.Error())
-		return nil
+	var err error
+	for try := 0; try < 4; try++ {
+		var c *vclient.Client
+		if c, err = vclient.Dial(w.e.srv, w.tag+"-"+suffix); err == nil {
+			return c
+		}
 	}
-	return c
+	w.inconclusive("dial failed: " + err.Error())
+	return nil
 }
 
 var childStart = time.Now()
@@ -311,7 +314,7 @@ func (w *world) inconclusive(s string) {
 
 func (w *world) joinAs(c *vclient.Client, user string) bool {
 	w.logf("%s join %s as %s", c.ID, w.g, user)
-	m, ok := c.Join(w.g, user, pw(user))
+	m, ok := join(c, w.g, user, pw(user))
 	if !ok {
 		w.inconclusive("no reply to a bystander's join")
 		return false
@@ -382,7 +385,7 @@ func (w *world) quiesce(more ...*vclient.Client) bool {
 	if len(cs) == 0 {
 		return true
 	}
-	if !vclient.Quiesce(cs, 3, 20*time.Millisecond, 40*time.Second) {
+	if !quiesce(cs, 3, 20*time.Millisecond) {
 		w.inconclusive("quiescence watchdog fired")
 		return false
 	}
@@ -392,7 +395,7 @@ func (w *world) quiesce(more ...*vclient.Client) bool {
 func (w *world) close() {
 	if w.recording && w.hlp != nil {
 		w.hlp.Send(vclient.Msg{"type": "groupaction", "kind": "unrecord", "source": w.hlp.ID})
-		w.hlp.Ping(10 * time.Second)
+		ping(w.hlp)
 	}
 	for _, c := range w.clients() {
 		c.Close()
@@ -459,7 +462,7 @@ func (w *world) ensureLocked(want bool) bool {
 	w.hlp.Send(vclient.Msg{"type": "groupaction", "kind": kind, "source": w.hlp.ID})
 	_, ok := w.hlp.WaitForFrom(from, func(m vclient.Msg) bool {
 		return m.Str("type") == "joined" && m.Str("kind") == "change" && statusLocked(m) == want
-	}, 30*time.Second)
+	}, wd)
 	if !ok {
 		w.inconclusive("helper operator could not " + kind + " the group")
 		return false
@@ -480,7 +483,7 @@ func (w *world) ensureRecording(want bool) bool {
 		w.hlp.Send(vclient.Msg{"type": "groupaction", "kind": "record", "source": w.hlp.ID})
 		m, ok := watcher.WaitForFrom(from, func(m vclient.Msg) bool {
 			return m.Str("type") == "user" && m.Str("kind") == "add" && m.Str("username") == "RECORDING"
-		}, 30*time.Second)
+		}, wd)
 		if !ok {
 			w.inconclusive("helper operator could not start a recording")
 			return false
@@ -493,7 +496,7 @@ func (w *world) ensureRecording(want bool) bool {
 	w.hlp.Send(vclient.Msg{"type": "groupaction", "kind": "unrecord", "source": w.hlp.ID})
 	_, ok := watcher.WaitForFrom(from, func(m vclient.Msg) bool {
 		return m.Str("type") == "user" && m.Str("kind") == "delete" && m.Str("id") == id
-	}, 30*time.Second)
+	}, wd)
 	if !ok {
 		w.inconclusive("helper operator could not stop the recording")
 		return false
@@ -573,7 +576,7 @@ func (w *world) makeActor(state string, ps permSet, suffix string) *actor {
 		// handshake only
 	case "joined", "left", "kicked":
 		w.logf("actor %s joins %s as act %v", a.c.ID, w.g, ps.cfg)
-		m, ok := a.c.Join(w.g, "act", pw("act"))
+		m, ok := join(a.c, w.g, "act", pw("act"))
 		if !ok || m.Str("kind") != "join" {
 			w.inconclusive(fmt.Sprintf("actor could not join: %v", m))
 			return nil
@@ -587,7 +590,7 @@ func (w *world) makeActor(state string, ps permSet, suffix string) *actor {
 		switch state {
 		case "left":
 			w.logf("actor leaves")
-			if !a.c.Leave(w.g) {
+			if !leave(a.c, w.g) {
 				w.inconclusive("leave was not acknowledged")
 				return nil
 			}
@@ -595,7 +598,7 @@ func (w *world) makeActor(state string, ps permSet, suffix string) *actor {
 		case "kicked":
 			w.logf("helper kicks the actor")
 			w.hlp.Send(vclient.Msg{"type": "useraction", "kind": "kick", "source": w.hlp.ID, "dest": a.c.ID, "value": "out"})
-			deadline := time.Now().Add(30 * time.Second)
+			deadline := time.Now().Add(wd)
 			for {
 				if closed, _ := a.c.Closed(); closed {
 					break
@@ -610,19 +613,19 @@ func (w *world) makeActor(state string, ps permSet, suffix string) *actor {
 		}
 	case "refused:bad-password":
 		w.logf("actor joins with a wrong password")
-		m, ok := a.c.Join(w.g, "act", "not-the-password")
+		m, ok := join(a.c, w.g, "act", "not-the-password")
 		if fail(m, ok, "bad password") == nil {
 			return nil
 		}
 	case "refused:no-such-group":
 		w.logf("actor joins a group that does not exist")
-		m, ok := a.c.Join("nonexistent-"+w.tag, "act", pw("act"))
+		m, ok := join(a.c, "nonexistent-"+w.tag, "act", pw("act"))
 		if fail(m, ok, "no such group") == nil {
 			return nil
 		}
 	case "refused:locked", "refused:full", "refused:not-open", "refused:expired", "refused:no-operator", "refused:duplicate-id":
 		w.logf("actor %s joins %s as act %v (must be refused: %s)", a.c.ID, w.g, ps.cfg, state)
-		m, ok := a.c.Join(w.g, "act", pw("act"))
+		m, ok := join(a.c, w.g, "act", pw("act"))
 		if fail(m, ok, state) == nil {
 			return nil
 		}
@@ -832,12 +835,17 @@ func (w *world) perform(a *actor, ks kindSpec, tgt *vclient.Client, j job, expec
 	if tokenKind {
 		tokenMu.Lock()
 	}
+	barrier := true
 	if !closedNow(a.c) {
 		a.c.Send(m)
-		a.c.Ping(20 * time.Second)
+		barrier = ping(a.c) || goneSoon(a.c)
 	}
 	if tokenKind {
 		tokenMu.Unlock()
+	}
+	if !barrier {
+		w.inconclusive("no pong from the server after the actor's message")
+		return outcome{wd: true}
 	}
 	if !w.quiesce() {
 		return outcome{wd: true}
@@ -915,7 +923,7 @@ func (w *world) perform(a *actor, ks kindSpec, tgt *vclient.Client, j job, expec
 		})
 		if kicked || n > 0 {
 			// the close follows the message
-			deadline := time.Now().Add(20 * time.Second)
+			deadline := time.Now().Add(wd)
 			for tgt != nil && !closedNow(tgt) && time.Now().Before(deadline) {
 				time.Sleep(5 * time.Millisecond)
 			}
@@ -950,7 +958,7 @@ func (w *world) perform(a *actor, ks kindSpec, tgt *vclient.Client, j job, expec
 				return outcome{wd: true}
 			}
 			w.logf("probe joins as a non-operator")
-			pm, ok := p.Join(w.g, "prb", pw("prb"))
+			pm, ok := join(p, w.g, "prb", pw("prb"))
 			if !ok {
 				p.Close()
 				w.inconclusive("no reply to the probe's join")
@@ -958,7 +966,7 @@ func (w *world) perform(a *actor, ks kindSpec, tgt *vclient.Client, j job, expec
 			}
 			accepted := pm.Str("kind") == "join"
 			if accepted {
-				p.Leave(w.g) // acknowledged: the departure has been queued to everybody
+				leave(p, w.g) // acknowledged: the departure has been queued to everybody
 			}
 			p.Close()
 			out.detail += fmt.Sprintf("; afterwards a non-operator's join was accepted: %v", accepted)
@@ -1043,9 +1051,9 @@ func (w *world) perform(a *actor, ks kindSpec, tgt *vclient.Client, j job, expec
 				if n == nil {
 					return outcome{wd: true}
 				}
-				jm, ok := n.JoinToken(w.g, "invitee-"+w.tag, ts)
+				jm, ok := joinToken(n, w.g, "invitee-"+w.tag, ts)
 				if ok && jm.Str("kind") == "join" {
-					n.Leave(w.g)
+					leave(n, w.g)
 				}
 				n.Close()
 				if !ok {
@@ -1102,7 +1110,7 @@ func (w *world) perform(a *actor, ks kindSpec, tgt *vclient.Client, j job, expec
 			// says about the stream at that moment) is not taken for the effect of a
 			// later message.
 			for _, c := range mo {
-				if _, ok := c.WaitForFrom(mark[c], func(e vclient.Msg) bool { return e.Str("type") == "close" && e.Str("id") == streamID }, 30*time.Second); !ok && !closedNow(c) {
+				if _, ok := c.WaitForFrom(mark[c], func(e vclient.Msg) bool { return e.Str("type") == "close" && e.Str("id") == streamID }, wd); !ok && !closedNow(c) {
 					w.inconclusive("a published stream was never announced to " + c.ID)
 					return outcome{wd: true}
 				}
